@@ -6,6 +6,7 @@ import (
 	"context"
 	"fmt"
 	"math"
+	"strings"
 	"testing"
 
 	"github.com/platinummonkey/go-concurrency-limits/core"
@@ -33,14 +34,15 @@ type c03Op struct {
 }
 
 type c03Case struct {
-	Kind    string    `json:"kind"`              // lookup | predicate
-	Matcher bool      `json:"matcher,omitempty"` // predicate: use the shipped StringPredicateMatcher (single key per partition)
+	Kind    string    `json:"kind"`               // lookup | predicate
+	Matcher bool      `json:"matcher,omitempty"`  // predicate: use the shipped StringPredicateMatcher (single key per partition)
+	CaseIns bool      `json:"case_ins,omitempty"` // matcher: its case-insensitive mode
 	Limit   int       `json:"limit"`
 	Parts   []c03Part `json:"parts"`
 	Ops     []c03Op   `json:"ops"`
 }
 
-var c03Keys = []string{"a", "b", "c", "d", "e", "zz", ""}
+var c03Keys = []string{"a", "b", "c", "d", "e", "zz", "", "A", "Batch", "batch"}
 
 func genFrac() *rapid.Generator[float64] {
 	return rapid.OneOf(
@@ -54,8 +56,12 @@ func genC03(t *rapid.T) c03Case {
 	c.Limit = rapid.OneOf(rapid.IntRange(1, 4), rapid.IntRange(1, 8), rapid.IntRange(1, 64)).Draw(t, "limit")
 	if c.Kind == "predicate" {
 		c.Matcher = rapid.IntRange(0, 3).Draw(t, "matcher") == 0
+		c.CaseIns = c.Matcher && rapid.Bool().Draw(t, "caseIns")
 	}
 	names := []string{"a", "b", "c", "d", "e"}
+	if c.Matcher {
+		names = append(names, "A", "Batch") // match strings with upper-case letters, in both modes of the matcher
+	}
 	if c.Kind == "lookup" {
 		names = append(names, "") // the empty string is a key like any other (it is what the default lookup yields for a context without a key)
 	}
@@ -114,6 +120,7 @@ type c03Bin struct {
 	busy   int
 	lookup *strategy.LookupPartition
 	pred   *strategy.PredicatePartition
+	fold   bool // keys are compared case-insensitively (the shipped matcher's second mode)
 }
 
 func c03Share(total int, frac float64) int {
@@ -127,7 +134,7 @@ func c03Ctx(key string) context.Context {
 
 func (b *c03Bin) accepts(key string) bool {
 	for _, k := range b.part.Keys {
-		if k == key {
+		if k == key || (b.fold && strings.EqualFold(k, key)) {
 			return true
 		}
 	}
@@ -169,7 +176,8 @@ func runC03(_ *testing.T, c c03Case) (out kit.Outcome) {
 				return false
 			}
 			if c.Matcher {
-				pred = matchers.StringPredicateMatcher(p.Name, false)
+				pred = matchers.StringPredicateMatcher(p.Name, c.CaseIns)
+				b.fold = c.CaseIns
 			}
 			b.pred = strategy.NewPredicatePartitionWithMetricRegistry(p.Name, p.Frac, pred, reg)
 		}
